@@ -45,8 +45,9 @@ func main() {
 			os.Exit(2)
 		}
 		var r struct {
-			Property string          `json:"property"`
-			Replay   json.RawMessage `json:"replay"`
+			Property  string          `json:"property"`
+			Signature string          `json:"signature"`
+			Replay    json.RawMessage `json:"replay"`
 		}
 		if err := json.Unmarshal(data, &r); err != nil {
 			fmt.Fprintln(os.Stderr, err)
@@ -57,6 +58,7 @@ func main() {
 			fmt.Fprintln(os.Stderr, "no replay for", r.Property)
 			os.Exit(2)
 		}
+		props.ReplaySig = r.Signature
 		if what := d.Replay(r.Replay); what != "" {
 			fmt.Fprintf(os.Stderr, "REPRODUCED property=%s %s\n", r.Property, what)
 			os.Exit(1)
